@@ -660,3 +660,72 @@ def gen_near_interleave(rng, n):
             lst[pos] = total + rng.choice([0, 1, 1, 4, 20])
             out.append(fmt % ",".join(map(str, lst)))
     return out
+
+
+# ---------------------------------------------------------------------------
+# SPEC of sizes with unit suffixes, with the DOCUMENTED multipliers (doc/hwloc.doxy: "kB, KiB, MB, MiB, ..."),
+# written here by hand and not derived from the source or from the model: kB=1000, kiB=1024, MB=10^6, MiB=2^20,
+# GB=10^9, GiB=2^30, TB=10^12, TiB=2^40, any letter case; no suffix = bytes.
+# ---------------------------------------------------------------------------
+DOC_UNITS = {"": 1, "kb": 1000, "kib": 1024, "mb": 10 ** 6, "mib": 2 ** 20, "gb": 10 ** 9, "gib": 2 ** 30, "tb": 10 ** 12, "tib": 2 ** 40}
+_UNITS_TOK = re.compile(r"^(?:(pack|core|pu):(\d+)|(l1|l2|l3):(\d+)\(size=(\d+)([A-Za-z]*)\)|numa:(\d+)\(memory=(\d+)([A-Za-z]*)(?: memorysidecachesize=(\d+)([A-Za-z]*))?\)|\[numa\(memory=(\d+)([A-Za-z]*)(?: memorysidecachesize=(\d+)([A-Za-z]*))?\)\])$")
+
+
+def _doc_bytes(num, unit):
+    u = unit.lower()
+    if len(num) > 1 and num[0] == "0":       # base 0: octal / hex prefixes are not part of this spec
+        return None
+    if u not in DOC_UNITS or int(num) * DOC_UNITS[u] >= 2 ** 64:      # saturation / wrap-around is outside this spec
+        return None
+    return int(num) * DOC_UNITS[u]
+
+
+def units_expected(desc):
+    """-> {"cache": {type number: bytes}, "mem": bytes or None, "msc": bytes or None} or None if not canonical"""
+    exp = {"cache": {}, "mem": None, "msc": None}
+    toks = re.findall(r"\[numa\([^()\[\]]*\)\]|[a-z0-9]+:\d+(?:\([^()]*\))?", desc)
+    if " ".join(toks) != desc or not toks:
+        return None
+    seen = False
+    for tok in toks:
+        m = _UNITS_TOK.match(tok)
+        if not m:
+            return None
+        if m.group(3):
+            b = _doc_bytes(m.group(5), m.group(6))
+            if b is None or b == 0:
+                return None
+            exp["cache"][{"l1": 5, "l2": 6, "l3": 7}[m.group(3)]] = b
+            seen = True
+        elif m.group(7) or m.group(12):
+            if exp["mem"] is not None:
+                return None
+            g = 8 if m.group(7) else 12
+            b = _doc_bytes(m.group(g), m.group(g + 1))
+            if b is None or b == 0:
+                return None
+            exp["mem"] = b
+            if m.group(g + 2):
+                c = _doc_bytes(m.group(g + 2), m.group(g + 3))
+                if c is None or c == 0:
+                    return None
+                exp["msc"] = c
+            seen = True
+    return exp if seen else None
+
+
+def gen_units_spec(rng, per_unit=1):
+    """every unit suffix in every letter case on cache sizes, NUMA memory (level and attached) and memory-side caches"""
+    out = []
+    import itertools
+    for u in ["", "kB", "kiB", "MB", "MiB", "GB", "GiB", "TB", "TiB"]:
+        cases_ = sorted(set("".join(c) for c in itertools.product(*[(ch.lower(), ch.upper()) for ch in u]))) if u else [""]
+        for uc in cases_:
+            for _ in range(per_unit):
+                n1, n2, n3 = rng.choice([1, 3, 32, 100, 512, 999]), rng.choice([1, 2, 16, 250, 1000]), rng.choice([1, 4, 64, 300])
+                a, b, c = rng.choice([1, 2, 3]), rng.choice([1, 2]), rng.choice([1, 2])
+                cl = rng.choice(["l1", "l2", "l3"])
+                out.append("pack:%d [numa(memory=%d%s memorysidecachesize=%d%s)] %s:%d(size=%d%s) pu:%d" % (a, n2, uc, n3, uc, cl, b, n1, uc, c))
+                out.append("numa:%d(memory=%d%s) %s:%d(size=%d%s) core:%d pu:1" % (a + 1, n2, uc, cl, b, n1, uc, c))
+                out.append("pack:%d numa:%d(memory=%d%s memorysidecachesize=%d%s) pu:%d" % (a, b, n2, uc, n3, uc, c))
+    return out
